@@ -1098,48 +1098,106 @@ var _ = late(func() {
 				r.undecided("stream.BatchFunc|batcher", token.NoPos, "batcher goroutine not found")
 				return
 			}
-			// the stamp: the variable handed to time.Since
-			var stamp lvar
-			for _, g := range bi.all {
-				instrs(g, func(_ *ssa.BasicBlock, _ int, in ssa.Instruction) {
-					call, ok := in.(*ssa.Call)
-					if !ok {
+			// the stamp: whatever is handed to time.Since - a (captured) variable, a loop-carried value, or a parameter of a
+			// helper that is given the stamp; its assignment points are traced by value
+			type stampSite struct {
+				now *ssa.Call
+				at  *ssa.BasicBlock
+			}
+			var sites []stampSite
+			seen := map[ssa.Value]bool{}
+			foundSince := false
+			var trace func(v ssa.Value, at *ssa.BasicBlock, depth int)
+			trace = func(v ssa.Value, at *ssa.BasicBlock, depth int) {
+				if depth > 12 {
+					return
+				}
+				switch x := v.(type) {
+				case *ssa.Call:
+					if cal := x.Call.StaticCallee(); cal != nil && cal.Name() == "Now" && cal.Pkg != nil && cal.Pkg.Pkg.Path() == "time" {
+						for _, s := range sites {
+							if s.now == x && s.at == at {
+								return
+							}
+						}
+						sites = append(sites, stampSite{x, at})
+					}
+				case *ssa.ChangeType:
+					trace(x.X, at, depth+1)
+				case *ssa.Phi:
+					if seen[x] {
 						return
 					}
-					if cal := call.Call.StaticCallee(); cal != nil && cal.Name() == "Since" && cal.Pkg != nil && cal.Pkg.Pkg.Path() == "time" {
-						if lv := loadVar(call.Call.Args[0]); lv.ok() {
-							stamp = lv
+					seen[x] = true
+					for k, e := range x.Edges {
+						if k < len(x.Block().Preds) {
+							trace(e, x.Block().Preds[k], depth+1)
 						}
 					}
-				})
+				case *ssa.UnOp:
+					if x.Op != token.MUL || seen[x] {
+						return
+					}
+					seen[x] = true
+					if lv := lvarOf(x.X); lv.ok() {
+						for _, st := range storesToVar(lv) {
+							trace(st.Val, st.Block(), depth+1)
+						}
+					}
+				case *ssa.Parameter:
+					if seen[x] {
+						return
+					}
+					seen[x] = true
+					for k, p := range x.Parent().Params {
+						if p != x {
+							continue
+						}
+						for _, cc := range callCommonsOf(c, x.Parent()) {
+							if k < len(cc.Args) {
+								trace(cc.Args[k], nil, depth+1)
+							}
+						}
+					}
+				}
 			}
-			if !stamp.ok() {
+			for _, g := range bi.all {
+				for _, di := range deepInstrs(g, 2) {
+					call, ok := di.in.(*ssa.Call)
+					if !ok {
+						continue
+					}
+					if cal := call.Call.StaticCallee(); cal != nil && cal.Name() == "Since" && cal.Pkg != nil && cal.Pkg.Pkg.Path() == "time" {
+						foundSince = true
+						trace(call.Call.Args[0], nil, 0)
+					}
+				}
+			}
+			if !foundSince {
 				r.undecided("stream.BatchFunc|batch-start", batcher.Pos(), "the variable time.Since is applied to was not found")
 				return
 			}
-			n := 0
-			for _, st := range storesToVar(stamp) {
-				call, ok := st.Val.(*ssa.Call)
-				if !ok {
-					continue // the zero value at declaration
+			isFirstItem := func(b *ssa.BasicBlock) bool {
+				if b == nil {
+					return false
 				}
-				if cal := call.Call.StaticCallee(); cal == nil || cal.Name() != "Now" {
-					continue
-				}
-				n++
-				first := false
-				for _, g := range guardsOf(st.Block()) {
+				for _, g := range guardsOf(b) {
 					cf, ok := g.asCmp()
 					if !ok || cf.op != token.EQL || !isConstInt(cf.y, 1) {
 						continue
 					}
 					if lc, ok := resolveVal(cf.x).(*ssa.Call); ok {
 						if bi, ok := lc.Call.Value.(*ssa.Builtin); ok && bi.Name() == "len" {
-							first = true
+							return true
 						}
 					}
 				}
-				r.ok(first, "stream.BatchFunc|stamp#"+itoa(n), st.Pos(), "the batch's age is stamped here, outside the `len(batch) == 1` test that marks the arrival of its first item: the next batch inherits the idle time before it and is released underfilled immediately")
+				return false
+			}
+			n := 0
+			for _, s := range sites {
+				n++
+				r.ok(isFirstItem(s.at) || isFirstItem(s.now.Block()), "stream.BatchFunc|stamp#"+itoa(n), s.now.Pos(), "the batch's age is stamped here, outside the `len(batch) == 1` test that marks the arrival of its first item: the next batch inherits the idle time before it and is released underfilled immediately")
 			}
 			if n == 0 {
 				r.violated("stream.BatchFunc|stamp", batcher.Pos(), "the batch's start time is never set to time.Now()")
